@@ -185,6 +185,9 @@ def gen_op(rng, prof, R):
             stars = rng.choice([0, 1, 2])
             n = rng.randint(0, prof.get("maxitems", 5))
             items = "".join(("1" if stars and rng.random() < 0.15 else "0") for _ in range(n)) or "-"
+            if items != "-" and rng.random() < prof.get("iter_raise", 0.0):
+                k = rng.randrange(len(items))       # the iterator raises at position k: nothing after it is ever reached
+                items = items[:k] + "2" + items[k + 1:]
             sp = gen_spec(rng, prof, ctx)
             R.do(on + ["map", str(stars), items, str(rng.choice(prof.get("ncs", [0, 1, 1, 2, 2, 3]))),
                        rng.choice(["-", "-", "-", "G", "H"]), sp[0], sp[1], sp[2], sp[3], sp[5], sp[6]])
